@@ -78,6 +78,8 @@ fn role<'a>(cx: &'a Cx, kind: &str, variant: &str) -> Option<&'a Role> { cx.role
 fn clone_call(t: &Tm, method: &str) -> Option<(String, Vec<Tm>)> {
     if let Tm::Call { qself: Some((ty, tr)), path, args } = t { if ends(tr, "clone::Clone") && path == method { return Some((ty.clone(), args.clone())); } }
     if let Tm::Call { qself: None, path, args } = t { if ends(path, &format!("Clone::{method}")) { return Some((String::new(), args.clone())); } }
+    // method syntax is the same call as far as this property is concerned (its hygiene is C13's subject)
+    if let Tm::Method(recv, m, args) = t { if m == method { let mut a = vec![(**recv).clone()]; a.extend(args.iter().cloned()); return Some((String::new(), a)); } }
     None
 }
 
@@ -303,7 +305,11 @@ pub fn c08(cx: &Cx) -> i32 {
                                 let want_l = if variant == "AssignOp" { false } else { l_ref };
                                 let want_r = if variant == "UnaryOp" { false } else { r_ref };
                                 let out_ok = variant == "AssignOp" || bound_txt.contains("Output=");
-                                let hrtb_ok = !(b_ref || arg_ref) || pt.lifetimes.is_some();
+                                // every `&` of the predicate must carry the one lifetime bound by `for<..>`: two independent
+                                // lifetimes ask for more than the body needs and drop impls whose reference forms tie them together
+                                let n_bound_lts = pt.lifetimes.as_ref().map(|l| l.lifetimes.len()).unwrap_or(0);
+                                let lts: std::collections::BTreeSet<String> = { let t = format!("{bt} {bound_txt}"); let mut v = std::collections::BTreeSet::new(); let mut rest = t.as_str(); while let Some(i) = rest.find("&'") { let tail = &rest[i + 1..]; let end = tail[1..].find(|c: char| !(c.is_alphanumeric() || c == '_')).map(|e| e + 1).unwrap_or(tail.len()); v.insert(tail[..end].to_string()); rest = &tail[end..]; } v };
+                                let hrtb_ok = if b_ref || arg_ref { n_bound_lts == 1 && lts.len() == 1 } else { n_bound_lts == 0 };
                                 rep.check(b_ref == want_l && arg_ref == want_r && out_ok && hrtb_ok && bound_txt.contains(&tr_name), "TP-where-form", &label, "where-form", &format!("the where-predicate generated for a field type does not match form (lhs by ref: {l_ref}, rhs by ref: {r_ref}): {}", quote::ToTokens::to_token_stream(pred).to_string()), &site, json!({}));
                             }
                         }
@@ -345,6 +351,11 @@ fn check_debug_chain(rep: &mut Report, inst: &Instance, label: &str, site: &str,
         return;
     }
     let (root, calls) = method_chain(expr);
+    // a type without fields may also print its bare name, as the standard derive does
+    if fields.is_empty() && root == Tm::Param(1) && calls.len() == 1 && calls[0].0 == "write_str" && calls[0].1.len() == 1 && stringify_arg(&calls[0].1[0]).map(|s| name_leaf_ok(&s)).unwrap_or(false) {
+        rep.pass("TP-debug");
+        return;
+    }
     let mut ok = root == Tm::Param(1) && calls.len() >= 2;
     let mut why = String::new();
     if ok {
@@ -643,7 +654,7 @@ pub fn c09(cx: &Cx) -> i32 {
     use crate::misc::{find_fn, sig_text};
     let mut rep = cx.report("C09");
     let ix = &cx.ix;
-    let Some(f) = find_fn(ix, &|f| sig_text(f).contains("&ItemImpl") && sig_text(f).contains("->Result<TokenStream>")) else {
+    let Some(f) = crate::misc::impl_builder(ix) else {
         rep.fail("roles", "impl", "builder", "the builder for `impl` items (TokenStream, &ItemImpl) -> Result<TokenStream> was not found", "item_impl.rs", json!({}));
         return rep.finish("other", "-", "-");
     };
@@ -654,7 +665,11 @@ pub fn c09(cx: &Cx) -> i32 {
     let mut ev = mk_ev(ix);
     let cg = crate::roles::CallGraph::build(ix);
     for c in cg.edges.get(&f.qual).cloned().unwrap_or_default() {
-        if let Some(g) = ix.get_fn(&c) { if sig_text(&g).contains("->Result<") && c != f.qual { ev.stops.push((c.clone(), "ret")); } }
+        if let Some(g) = ix.get_fn(&c) { if sig_text(&g).contains("->Result<") && c != f.qual && !crate::misc::is_impl_helper(ix, &g) { ev.stops.push((c.clone(), "ret")); } }
+    }
+    // callees of the builder's own helpers as well
+    for h in ix.fns.values().flatten().filter(|g| crate::misc::is_impl_helper(ix, g) && g.qual != f.qual) {
+        for c in cg.edges.get(&h.qual).cloned().unwrap_or_default() { if let Some(g) = ix.get_fn(&c) { if sig_text(&g).contains("->Result<") && !crate::misc::is_impl_helper(ix, &g) && !ev.stops.iter().any(|s| s.0 == c) { ev.stops.push((c.clone(), "ret")); } } }
     }
     if let Some(g) = &ref_elem { ev.stops.push((g.qual.clone(), "ret")); }
     if let Some(g) = &to_rhs { ev.stops.push((g.qual.clone(), "ret")); }
